@@ -1305,6 +1305,14 @@ class Executor(object):
             res.extend(outs)
         return res
 
+    def s_AnnAssign(self, node, st, fr):
+        """`x: T = e` is `x = e` (the annotation is not evaluated for local names); `x: T` alone is a no-op"""
+        if node.value is None:
+            return [(st, "ok", None)]
+        fake = ast.Assign(targets=[node.target], value=node.value)
+        ast.copy_location(fake, node)
+        return self.s_Assign(fake, st, fr)
+
     def assign(self, tgt, v, st, fr):
         if isinstance(tgt, ast.Name):
             return [(st.with_env(tgt.id, v), "ok", None)]
